@@ -93,6 +93,9 @@ func main() {
 			}
 			r := &rw{p: p, f: f, st: &st}
 			r.file()
+			if *variant == "c12" && p.PkgPath == coap+"/message/pool" {
+				injectTracker(f)
+			}
 			var buf bytes.Buffer
 			if err := (&printer.Config{Mode: printer.UseSpaces | printer.TabIndent, Tabwidth: 8}).Fprint(&buf, p.Fset, f); err != nil {
 				fatal("print %s: %v", src, err)
@@ -424,3 +427,72 @@ func (r *rw) selectStmt(s *ast.SelectStmt) ast.Stmt {
 }
 
 var _ = sort.Strings
+
+// injectTracker (variant c12): every function of message/pool with a *Message receiver or
+// parameter starts with verifLive(x, name); Pool.AcquireMessage / ReleaseMessage are diverted
+// to the tracker in hooks/c12/message/pool.
+func injectTracker(f *ast.File) {
+	isMsgPtr := func(t ast.Expr) bool {
+		st, ok := t.(*ast.StarExpr)
+		if !ok {
+			return false
+		}
+		id, ok := st.X.(*ast.Ident)
+		return ok && id.Name == "Message"
+	}
+	for _, d := range f.Decls {
+		fd, ok := d.(*ast.FuncDecl)
+		if !ok || fd.Body == nil {
+			continue
+		}
+		var pre []ast.Stmt
+		recvPool := false
+		if fd.Recv != nil && len(fd.Recv.List) == 1 {
+			if st, ok := fd.Recv.List[0].Type.(*ast.StarExpr); ok {
+				if id, ok := st.X.(*ast.Ident); ok && id.Name == "Pool" {
+					recvPool = true
+				}
+			}
+		}
+		if recvPool && fd.Name.Name == "AcquireMessage" {
+			ctxName := fd.Type.Params.List[0].Names[0].Name
+			pre = append(pre, &ast.IfStmt{
+				Init: &ast.AssignStmt{Lhs: []ast.Expr{ast.NewIdent("__m")}, Tok: token.DEFINE, Rhs: []ast.Expr{&ast.CallExpr{Fun: ast.NewIdent("verifAcquire"), Args: []ast.Expr{ast.NewIdent(ctxName)}}}},
+				Cond: &ast.BinaryExpr{X: ast.NewIdent("__m"), Op: token.NEQ, Y: ast.NewIdent("nil")},
+				Body: &ast.BlockStmt{List: []ast.Stmt{&ast.ReturnStmt{Results: []ast.Expr{ast.NewIdent("__m")}}}},
+			})
+		} else if recvPool && fd.Name.Name == "ReleaseMessage" {
+			mName := fd.Type.Params.List[0].Names[0].Name
+			pre = append(pre, &ast.IfStmt{
+				Cond: &ast.CallExpr{Fun: ast.NewIdent("verifRelease"), Args: []ast.Expr{ast.NewIdent(mName)}},
+				Body: &ast.BlockStmt{List: []ast.Stmt{&ast.ReturnStmt{}}},
+			})
+		} else {
+			var names []string
+			if fd.Recv != nil {
+				for _, fl := range fd.Recv.List {
+					if isMsgPtr(fl.Type) {
+						for _, n := range fl.Names {
+							names = append(names, n.Name)
+						}
+					}
+				}
+			}
+			for _, fl := range fd.Type.Params.List {
+				if isMsgPtr(fl.Type) {
+					for _, n := range fl.Names {
+						if n.Name != "_" {
+							names = append(names, n.Name)
+						}
+					}
+				}
+			}
+			for _, n := range names {
+				pre = append(pre, &ast.ExprStmt{X: &ast.CallExpr{Fun: ast.NewIdent("verifLive"), Args: []ast.Expr{ast.NewIdent(n), &ast.BasicLit{Kind: token.STRING, Value: strconv.Quote(fd.Name.Name)}}}})
+			}
+		}
+		if len(pre) > 0 {
+			fd.Body.List = append(pre, fd.Body.List...)
+		}
+	}
+}
